@@ -242,49 +242,6 @@ pub fn world_capacity_mapping() {
     std::mem::forget(world);
 }
 
-/// An archetype whose only column is zero-sized, public API only (capacity 3, no growth):
-/// bookkeeping, lookups, iteration and re-creation behave as for any other archetype.
-pub fn all_zst() {
-    use crate::worlds::wzz::*;
-    let mut world = WZZ::with_capacity(WZZCapacity { arch_zz: 3 });
-    let n = if sym::any_bool() { 3 } else { 1 };
-    let mut hs: [Option<Entity<ArchZz>>; 3] = [None; 3];
-    let mut i = 0;
-    while i < 3 {
-        if i < n {
-            hs[i] = Some(world.create::<ArchZz>((Zu,)));
-        }
-        i += 1;
-    }
-    assert!(world.arch_zz.len() == n && world.arch_zz.capacity() >= n && !world.arch_zz.is_empty());
-    let k = sym::any_usize();
-    sym::assume(k < n);
-    assert!(world.destroy(hs[k].unwrap()).is_some(), "destroy of a live entity of a ZST-only archetype failed");
-    assert!(world.arch_zz.len() == n - 1, "len after destroy (ZST-only archetype)");
-    assert!(world.arch_zz.iter().count() == n - 1 && world.arch_zz.iter_mut().count() == n - 1 && world.arch_zz.entities().len() == n - 1, "iteration length differs from len() (ZST-only archetype)");
-    let mut calls = 0;
-    ecs_iter!(world, |_z: &Zu| calls += 1);
-    assert!(calls == n - 1, "ecs_iter! visits another number of entities than len() (ZST-only archetype)");
-    let mut i = 0;
-    while i < 3 {
-        if i < n {
-            let h = hs[i].unwrap();
-            assert!(world.contains(h) == (i != k), "a handle resolves iff its entity is alive (ZST-only archetype)");
-            if i != k {
-                let d = world.arch_zz.resolve(h).unwrap();
-                assert!(d < n - 1 && world.arch_zz.entities()[d] == h, "resolve does not lead to the entity's own dense cell (ZST-only archetype)");
-            }
-        }
-        i += 1;
-    }
-    let e = world.create::<ArchZz>((Zu,));
-    assert!(world.arch_zz.len() == n && e != hs[k].unwrap() && !world.contains(hs[k].unwrap()), "a re-created entity must not revive the destroyed handle (ZST-only archetype)");
-    cover!(n == 3 && k == 0, "full, first entity destroyed");
-    cover!(n == 1, "emptied");
-    std::mem::forget(world);
-}
-
-harness! { fn c12_all_zst_archetype() unwind(6) { all_zst() } }
 harness! { fn c12_world_capacity_mapping() unwind(4) { world_capacity_mapping() } }
 harness! { fn c12_refill_api_2() unwind(5) { refill_api::<2>() } }
 harness! { fn c12_within_foo_3() unwind(5) { bookkeeping_step::<w1::Foo, 3>(0) } }
